@@ -311,6 +311,11 @@ func (ma *MatrixAdjustment) interpolate(tf stringTransformer) error {
 	if err := interpolateMap(tf, ma.With); err != nil {
 		return err
 	}
+	skip, err := interpolateAny(tf, ma.Skip)
+	if err != nil {
+		return err
+	}
+	ma.Skip = skip
 	return interpolateMap(tf, ma.RemainingFields)
 }
 
